@@ -416,7 +416,7 @@ def ring_min(a2, x, y, p):
     return float(win.min()) if win.size else 0.0
 
 
-def explain_bound_failure(np, a2, x, y, p):
+def explain_bound_failure(np, a2, x, y, p, obs_off=None, dtype="f32"):
     """EFFECT-based signatures for a refined point that left the p/2 box (known_findings signatures):
     * `zero_sum_patch`  — the true patch sums to exactly 0 and has no negative entry (F-C06z);
     * `negative_patch`  — (F-C06) either the exact estimator on the true patch itself leaves the box (a theorem says this
@@ -432,6 +432,16 @@ def explain_bound_failure(np, a2, x, y, p):
     if abs(off[0]) > Fraction(p, 2) or abs(off[1]) > Fraction(p, 2):
         return ["negative_patch"]
     P = patch_of(np, a2[None, None], 0, 0, x, y, p)
+    # the exact estimator on the cells that enter the refinement for this p (for even p: four-cell means incl. the zero-padding
+    # row/column beyond a border) is beyond (p-1)/2 — the PROVED bound for a non-negative patch (refine_bounded_partial), so a
+    # negative entry is responsible (with the negative cells replaced by 0 it would be <= (p-1)/2, half a pixel inside the box)
+    # — and the observed point is that estimator up to the correspondence tolerance (here it sits ON the p/2 box edge and
+    # float cancellation of +-1e4-sized cells pushes it 0.005 outside)
+    if neg and obs_off is not None and (abs(off[0]) > Fraction(p - 1, 2) or abs(off[1]) > Fraction(p - 1, 2)):
+        az = eff_abs_sum(np, P, a2, p)
+        tol = REFINE_TOL[dtype] * max(1.0, (p + 1) / 2 * az / abs(float(z)))
+        if abs(obs_off[0] - float(off[0])) <= tol and abs(obs_off[1] - float(off[1])) <= tol:
+            return ["negative_patch"]
     if abs(float(z)) < 1e-3 * eff_abs_sum(np, P, a2, p) and ring_min(a2, x, y, p) < 0:
         return ["negative_patch"]
     return []
@@ -449,7 +459,7 @@ def oracle_refine(np, a, rough, refined, p, dtype="f32"):
     for k, (g, f) in enumerate(zip(rough, refined)):
         dx, dy = f[0] - g[0], f[1] - g[1]
         if not (abs(dx) <= half + BOUND_SLACK[dtype] and abs(dy) <= half + BOUND_SLACK[dtype]):  # NaN/inf fail too
-            sigs = explain_bound_failure(np, a[g[3], g[4]], int(g[0]), int(g[1]), p)
+            sigs = explain_bound_failure(np, a[g[3], g[4]], int(g[0]), int(g[1]), p, (dx, dy), dtype)
             res = (f"peak #{k} at cell ({g[0]},{g[1]}) of map ({g[3]},{g[4]}) moved by ({dx},{dy}), half patch = {half}", sigs)
             if not sigs:
                 return res
